@@ -626,6 +626,9 @@ Proof. intros [I1 I2 I3 I4 I5 I6 I7]. constructor; auto. Qed.
 Lemma Inv_with_crash c s b : Inv c s -> Inv c (with_crash s b).
 Proof. intros [I1 I2 I3 I4 I5 I6 I7]. constructor; auto. Qed.
 
+Lemma Inv_with_bcast c s n : Inv c s -> Inv c (with_bcast s n).
+Proof. intros [I1 I2 I3 I4 I5 I6 I7]. constructor; auto. Qed.
+
 Lemma NoDup_filter {A} (f : A -> bool) l : NoDup l -> NoDup (filter f l).
 Proof.
   induction 1 as [|x l Hx Hl IH]; cbn; [constructor|].
@@ -877,6 +880,10 @@ Proof.
   - cbn in H. repeat (destruct (existsb _ _) in H; [discriminate|]). injection H as <-. now apply Inv_with_stop.
   - cbn in H. injection H as <-. apply Inv_with_done; [exact I|intros k Hk; now right].
   - cbn in H. injection H as <-. now apply Inv_add_hold.
+  - cbn in H. injection H as <-. now apply Inv_with_bcast.
+  - cbn in H. destruct (Nat.eqb n (bcast s)); [injection H as <-; exact I|discriminate].
+  - cbn in H. destruct (crash_mode s); [injection H as <-; now apply Inv_with_bcast|].
+    destruct (Nat.eqb n (bcast s)); [injection H as <-; exact I|discriminate].
 Qed.
 
 Lemma exec_Inv c tr : forall s s', Inv c s -> exec c s tr = Some s' -> Inv c s'.
